@@ -47,7 +47,8 @@ CurStamp(fs, n) == IF n = ALWAYS THEN Missing
                    ELSE IF fs[n].ex /\ fs[n].lnk # "" THEN LinkStamp(fs[n].ver, BaseStamp(fs, fs[n].lnk))
                    ELSE BaseStamp(fs, n)
 
-Exists(fs, n) == n # ALWAYS /\ fs[n].ex
+\* Path::exists(), [ -e n ]: follows a symbolic link (a dangling link does not "exist", although lstat finds it)
+Exists(fs, n) == n # ALWAYS /\ fs[n].ex /\ (fs[n].lnk = "" \/ fs[fs[n].lnk].ex)
 
 (***************************************************************************)
 (* Rows                                                                    *)
@@ -212,7 +213,7 @@ StartSelf(w, e, t, sf, cands) ==
         w1    == IF warn THEN Save(w, t, sf1) ELSE w
     IN
     IF bad THEN [k |-> "panic", w |-> w, rv |-> 101, df |-> "", sf |-> sf, ovr |-> FALSE]
-    ELSE IF e.fs[t].ex /\ ~e.fs[t].dir /\ (sf1.ovr \/ ~sf1.gen) THEN      \* (a directory is never a static source)
+    ELSE IF Exists(e.fs, t) /\ ~e.fs[t].dir /\ (sf1.ovr \/ ~sf1.gen) THEN      \* (a directory is never a static source)
         LET sf2 == IF ~sf1.ovr THEN SetStatic(sf1, new, e.rid) ELSE sf1 IN
         [k |-> "static", w |-> Save(w1, t, sf2), rv |-> 0, df |-> "", sf |-> sf2, ovr |-> warn]
     ELSE
@@ -220,7 +221,7 @@ StartSelf(w, e, t, sf, cands) ==
         IF fd.df = "" THEN
             \* no rule: an existing file (a generated target whose .do vanished)
             \* becomes a static source, otherwise the target fails
-            IF e.fs[t].ex THEN
+            IF Exists(e.fs, t) THEN
                 LET sf2 == SetStatic(sf1, new, e.rid) IN
                 [k |-> "static", w |-> Save(fd.w, t, sf2), rv |-> 0, df |-> "", sf |-> sf2, ovr |-> warn]
             ELSE
